@@ -126,6 +126,54 @@ def eval_spec(I, st, expr_ast, what):
     return z3.Or(*parts)
 
 
+def _same_val(a, b):
+    if a is b:
+        return True
+    if is_z3(a) or is_z3(b):
+        return is_z3(a) and is_z3(b) and a.eq(b)
+    if isinstance(a, (tuple, list)) and isinstance(b, (tuple, list)):
+        return type(a) is type(b) and len(a) == len(b) and all(_same_val(x, y) for x, y in zip(a, b))
+    if isinstance(a, dict) and isinstance(b, dict):
+        return list(a.keys()) == list(b.keys()) and all(_same_val(a[k], b[k]) for k in a)
+    try:
+        return type(a) is type(b) and bool(a == b)
+    except Exception:
+        return False
+
+
+def _entry_sig(e):
+    """contents of one store entry (for the frame check of invariant loops)"""
+    if isinstance(e, SymListE):
+        return (e.length, e.arr)
+    if isinstance(e, ObjE):
+        return dict(e.attrs)
+    if isinstance(e, DictE):
+        return dict(e.items)
+    for a in ("items", "data"):
+        if hasattr(e, a):
+            return list(getattr(e, a))
+    return None
+
+
+def _frame_check(st_head, sig, heap0, st_after, allowed, tag):
+    """An invariant loop havocs LOCAL NAMES only.  If the body changed an object / container that existed at the loop
+    head (attribute store, list append, dict item, abstract heap field) the exit state would keep the stale entry
+    value: refuse instead of continuing unsoundly."""
+    for k, before in sig.items():
+        if k in allowed or before is None:
+            continue
+        e = st_after.store.get(k)
+        if e is None:
+            continue
+        if not _same_val(before, _entry_sig(e)):
+            raise Unsupported("%s: the loop body modifies object state that an invariant loop does not havoc (store entry %s of kind %s)"
+                              % (tag, k, getattr(e, "kind", "?")))
+    for f, arr in heap0.items():
+        a1 = st_after.heap.get(f)
+        if a1 is not None and not _same_val(arr, a1):
+            raise Unsupported("%s: the loop body modifies heap field %s that an invariant loop does not havoc" % (tag, f))
+
+
 def run_invariant_loop(I, st, node, linv, qual, ordinal, head, after_body, body_stmts, orelse, pre_bind=None, auto_inv=None):
     """Generic invariant-based loop.
 
@@ -186,7 +234,16 @@ def run_invariant_loop(I, st, node, linv, qual, ordinal, head, after_body, body_
             if pre_bind:
                 pre_bind(st1)
             d0 = list(I.ev(ast.parse(linv.decreases, mode="eval").body, st1))[0][1]
+        sig0 = {k: _entry_sig(e) for k, e in st1.store.items()}
+        heap0 = dict(st1.heap)
+        allowed = set()
+        for n in names:
+            v = st1.frame.vars.get(n)
+            if isinstance(v, Ref) and st1.get(v).kind == "symlist":
+                allowed.add(v.id)  # havocked above through its name
         for st2, ctrl in list(I.ex_block(body_stmts, st1)):
+            if not linv.ghost_update:
+                _frame_check(st1, sig0, heap0, st2, allowed, tag)
             if ctrl is None or ctrl[0] == "continue":
                 after_body(st2)
                 check_inv(st2, "inv-preserved")
